@@ -149,6 +149,15 @@ def expr_kind(ctx, module, func, e, depth=0):
             return {"Bool"}
         if d in ("len", "int"):
             return {"Number"}
+        # a helper method of the same class (self._helper(...), cls._helper(...), ClassName._helper(...))
+        ch = attr_chain(e.func) if isinstance(e.func, ast.Attribute) else None
+        cls_node = getattr(func, "_class", None)
+        if ch and len(ch) == 2 and cls_node is not None and depth < 3 and ch[0] in ("self", "cls", cls_node.name):
+            ci = ctx.classes.get(module.name, cls_node.name)
+            if ci is not None:
+                owner, hf = ctx.classes.resolve_method(ci, ch[1])
+                if isinstance(hf, FUNC_TYPES) and owner is not None and not owner.external:
+                    return function_return_kinds(ctx, owner.module, hf, depth + 1)
         # module-level helper: its own return kinds
         if isinstance(e.func, ast.Name) and depth < 3:
             for s in module.tree.body:
